@@ -73,6 +73,7 @@ where
 
     let min_shift = read_min_shift(reader)?;
     let depth = read_depth(reader)?;
+    validate_geometry(min_shift, depth)?;
 
     let header = read_aux(reader).map_err(ReadError::InvalidHeader)?;
 
@@ -95,6 +96,22 @@ where
     }
 
     Ok(builder.build())
+}
+
+// The binning functions are defined for at most 10 levels and for positions that fit in a `usize`.
+pub(crate) fn validate_geometry(min_shift: u8, depth: u8) -> io::Result<()> {
+    const MAX_DEPTH: u8 = 10;
+
+    if min_shift == 0 || u32::from(min_shift) + 3 * u32::from(depth) >= usize::BITS {
+        Err(io::Error::new(
+            io::ErrorKind::InvalidData,
+            "invalid min shift",
+        ))
+    } else if depth > MAX_DEPTH {
+        Err(io::Error::new(io::ErrorKind::InvalidData, "invalid depth"))
+    } else {
+        Ok(())
+    }
 }
 
 fn read_magic<R>(reader: &mut R) -> Result<(), ReadError>
